@@ -89,6 +89,18 @@ def gen_probe_cases(n, r):
             nreq = r.randint(1, 20 if p <= 2 else 12)
             limits.append([nreq, '%ds' % p])
             periods.append(float(p))
+        if i % 5 == 1:
+            # (a) a long limit that the short one does not imply although it nearly does (the long period is not a multiple of the
+            # short one); (b) a fast short limit with a binding limit of 8-10 s, which makes requests wait for many polling rounds
+            fam = [[[2, 2], [5, 5]], [[1, 2], [1, 3]], [[3, 3], [10, 10]], [[2, 3], [3, 5]],
+                   [[2, 1], [1, 8]], [[5, 1], [3, 10]], [[10, 2], [2, 9]], [[19, 10]]][(i // 5) % 8]
+            limits = [[n_, '%ds' % p_] for n_, p_ in fam]
+            periods = [float(p_) for _, p_ in fam]
+            long_n, long_p = fam[-1]
+            per = min(2 * long_n + 2, 42) if long_p <= 5 else min(2 * long_n + 1, 40)
+            cases.append({'i': i, 'limits': limits, 'period_s': periods, 'callers': 1, 'requests': per, 'gaps_ms': [[]], 'shape': 'nested-burst',
+                          'workers': r.choice([1, 4]), 'spawn': False, 'deadline_ms': int(1000 * (per / (long_n / long_p) + 3 * long_p + 20))})
+            continue
         if i % 5 == 2 and nl >= 1:
             # two limits with the same period (spelled differently) and different numbers: the smaller number is the one that counts
             p0 = int(periods[0])
@@ -202,7 +214,7 @@ def run(tier):
     C.build(('harness', 'b1'))
     chk = C.Check('C09', LEVEL, tier)
     r = C.rng('C09')
-    pcs = gen_probe_cases(20 if tier == 'quick' else 150, r)
+    pcs = gen_probe_cases(42 if tier == 'quick' else 200, r)
     bbs = []
     for i in range(4 if tier == 'quick' else 30):
         lim = r.choice([[(4, 2)], [(3, 1), (10, 5)], [(6, 3)], [(2, 1)], [(5, 2), (12, 6)]])
@@ -233,7 +245,7 @@ def run(tier):
         for cls, what in res['problems']:
             chk.violation('C09|%s|%s' % (part, cls), what + ' [limits %s]' % (c['limits'],), res, res.get('replay_dir'))
     chk.rule = ('probe: limit sets of 1-3 limits (n in 1..20, periods 1-5 s) x arrival shapes (burst, steady, 2-8 contending callers on one endpoint '
-                'lock, burst after idle, lone requests + idle + burst against two limits of different periods) x runtime worker counts; black-box: 2-4 certificates on one limited endpoint with badNonce storms, cut connections, accounts forgotten at newOrder and polling; '
+                'lock, burst after idle, lone requests + idle + burst against two limits of different periods, bursts against nearly-implied long limits and against 8-10 s limits) x runtime worker counts; black-box: 2-4 certificates on one limited endpoint with badNonce storms, cut connections, accounts forgotten at newOrder and polling; '
                 'distinct = configurations with at least one admission / arrival observed')
     chk.assumptions = ['definite verdict only from return[i+n] - call[i] < period; tighter brackets and arrival-time verdicts must reproduce on a re-run',
                        'the verification build caps the limiter poll interval at 200 ms (the admission rule is unchanged)']
